@@ -331,3 +331,274 @@ def normalise_view(repo: Repo, view: FuncInfo) -> bool:
         ast.fix_missing_locations(view.node)
         set_parents(view.node)
     return tr.changed
+
+
+# --------------------------------------------------------------------------- per-key records split into one table per field
+
+
+def split_records(repo: Repo, view: FuncInfo) -> bool:
+    """A local `table = defaultdict(Record)` of small records (dataclass with list fields and boolean flags) that is only used
+    through `r = table[key]` / `r = table.get(key)`, `r.items.append(v)`, `r.flag = r.flag or cond`, `r.flag`, `r.items`,
+    `r is not None` is rewritten as one table per field:
+
+        r.items.append(v)             ->  table__items.setdefault(key, []).append(v)
+        r.flag = r.flag or cond       ->  if cond: table__flag.add(key)
+        r.flag / r.items              ->  key in table__flag / table__items.get(key, ())
+        r is not None / r is None     ->  True / False   (an absent record contributes an empty `items`, i.e. nothing)
+
+    which is the group-by-key / any-per-key shape the detector rules read.  Nothing is rewritten unless *every* use of the table
+    and of its record aliases fits (checked afterwards); True when the view was changed."""
+    if isinstance(view.node, ast.Lambda):
+        return False
+    mod = view.module
+    tables: dict[str, dict[str, str]] = {}
+    for n in ast.walk(view.node):
+        if isinstance(n, (ast.Assign, ast.AnnAssign)) and n.value is not None:
+            tgs = n.targets if isinstance(n, ast.Assign) else [n.target]
+            v = n.value
+            if len(tgs) == 1 and isinstance(tgs[0], ast.Name) and isinstance(v, ast.Call) and isinstance(v.func, ast.Name) and v.func.id == "defaultdict" and len(v.args) == 1 and isinstance(v.args[0], ast.Name) and not v.keywords:
+                ci = mod.classes.get(v.args[0].id)
+                src = getattr(v, "_src", None)
+                if ci is None and src is not None:
+                    ci = src[0].module.classes.get(v.args[0].id)
+                kinds = _record_fields(ci) if ci is not None else None
+                if kinds:
+                    tables[tgs[0].id] = kinds
+    if not tables:
+        return False
+    work = _clone(view.node)
+    ok = True
+
+    def fname(t: str, f: str) -> str:
+        return f"{t}__{f}"
+
+    class Use(ast.NodeTransformer):
+        def __init__(self, env: dict) -> None:
+            self.env = env  # alias -> (table, key expr)
+
+        def rec(self, e):
+            return self.env.get(e.id) if isinstance(e, ast.Name) and isinstance(e.ctx, ast.Load) else None
+
+        def visit_Attribute(self, n: ast.Attribute):  # noqa: N802
+            r = self.rec(n.value)
+            if r is not None and isinstance(n.ctx, ast.Load):
+                t, key = r
+                kind = tables[t].get(n.attr)
+                if kind == "flag":
+                    return ast.copy_location(ast.Compare(left=_clone(key), ops=[ast.In()], comparators=[ast.Name(id=fname(t, n.attr), ctx=ast.Load())]), n)
+                if kind == "list":
+                    return ast.copy_location(ast.Call(func=ast.Attribute(value=ast.Name(id=fname(t, n.attr), ctx=ast.Load()), attr="get", ctx=ast.Load()), args=[_clone(key), ast.Tuple(elts=[], ctx=ast.Load())], keywords=[]), n)
+            return self.generic_visit(n)
+
+        def visit_Compare(self, n: ast.Compare):  # noqa: N802
+            if len(n.ops) == 1 and isinstance(n.ops[0], (ast.Is, ast.IsNot)) and isinstance(n.comparators[0], ast.Constant) and n.comparators[0].value is None and self.rec(n.left) is not None:
+                return ast.copy_location(ast.Constant(value=isinstance(n.ops[0], ast.IsNot)), n)
+            return self.generic_visit(n)
+
+        def visit_Lambda(self, n):  # noqa: N802
+            return n
+
+    def alias_of(st: ast.stmt):
+        """(alias, table, key) for `r = table[key]` / `r = table.get(key)`."""
+        if isinstance(st, (ast.Assign, ast.AnnAssign)) and st.value is not None:
+            tgs = st.targets if isinstance(st, ast.Assign) else [st.target]
+            v = st.value
+            if len(tgs) == 1 and isinstance(tgs[0], ast.Name):
+                if isinstance(v, ast.Subscript) and isinstance(v.value, ast.Name) and v.value.id in tables and isinstance(v.slice, ast.Name):
+                    return tgs[0].id, v.value.id, v.slice
+                if isinstance(v, ast.Call) and isinstance(v.func, ast.Attribute) and v.func.attr == "get" and isinstance(v.func.value, ast.Name) and v.func.value.id in tables and len(v.args) == 1 and isinstance(v.args[0], ast.Name):
+                    return tgs[0].id, v.func.value.id, v.args[0]
+        return None
+
+    def block(stmts: list[ast.stmt], env: dict) -> list[ast.stmt]:
+        nonlocal ok
+        out: list[ast.stmt] = []
+        for st in stmts:
+            # declaration of the table
+            if isinstance(st, (ast.Assign, ast.AnnAssign)) and st.value is not None:
+                tgs = st.targets if isinstance(st, ast.Assign) else [st.target]
+                if len(tgs) == 1 and isinstance(tgs[0], ast.Name) and tgs[0].id in tables and isinstance(st.value, ast.Call) and isinstance(st.value.func, ast.Name) and st.value.func.id == "defaultdict":
+                    for f, kind in tables[tgs[0].id].items():
+                        val = ast.Dict(keys=[], values=[]) if kind == "list" else ast.Call(func=ast.Name(id="set", ctx=ast.Load()), args=[], keywords=[])
+                        out.append(ast.copy_location(ast.Assign(targets=[ast.Name(id=fname(tgs[0].id, f), ctx=ast.Store())], value=val), st))
+                    continue
+            al = alias_of(st)
+            if al is not None:
+                env[al[0]] = (al[1], al[2])
+                continue
+            # rebinding an alias to something else ends it
+            for x in ast.walk(st):
+                if isinstance(x, ast.Name) and isinstance(x.ctx, ast.Store) and x.id in env and not isinstance(st, (ast.For, ast.While, ast.If, ast.With, ast.Try)):
+                    env.pop(x.id, None)
+            # r.items.append(v)
+            if isinstance(st, ast.Expr) and isinstance(st.value, ast.Call) and isinstance(st.value.func, ast.Attribute) and isinstance(st.value.func.value, ast.Attribute) and isinstance(st.value.func.value.value, ast.Name) and st.value.func.value.value.id in env:
+                t, key = env[st.value.func.value.value.id]
+                f = st.value.func.value.attr
+                if tables[t].get(f) == "list" and st.value.func.attr in ("append", "extend", "add", "insert"):
+                    recv = ast.Call(func=ast.Attribute(value=ast.Name(id=fname(t, f), ctx=ast.Load()), attr="setdefault", ctx=ast.Load()), args=[_clone(key), ast.List(elts=[], ctx=ast.Load())], keywords=[])
+                    call = ast.Call(func=ast.Attribute(value=recv, attr=st.value.func.attr, ctx=ast.Load()), args=[Use(env).visit(a) for a in st.value.args], keywords=[])
+                    out.append(ast.copy_location(ast.Expr(value=call), st))
+                    continue
+            # r.flag = r.flag or cond / r.flag = True / r.flag |= cond
+            tgt = st.targets[0] if isinstance(st, ast.Assign) and len(st.targets) == 1 else st.target if isinstance(st, (ast.AugAssign, ast.AnnAssign)) else None
+            if isinstance(tgt, ast.Attribute) and isinstance(tgt.value, ast.Name) and tgt.value.id in env and getattr(st, "value", None) is not None:
+                t, key = env[tgt.value.id]
+                if tables[t].get(tgt.attr) == "flag":
+                    v = st.value
+                    conds_: list[ast.expr] | None = None
+
+                    def same(e) -> bool:
+                        return isinstance(e, ast.Attribute) and e.attr == tgt.attr and isinstance(e.value, ast.Name) and e.value.id == tgt.value.id
+
+                    if isinstance(st, ast.AugAssign) and isinstance(st.op, ast.BitOr):
+                        conds_ = [v]
+                    elif isinstance(v, ast.BoolOp) and isinstance(v.op, ast.Or) and any(same(x) for x in v.values):
+                        conds_ = [x for x in v.values if not same(x)]
+                    elif isinstance(v, ast.Constant) and v.value is True:
+                        conds_ = []
+                    if conds_ is not None:
+                        add = ast.Expr(value=ast.Call(func=ast.Attribute(value=ast.Name(id=fname(t, tgt.attr), ctx=ast.Load()), attr="add", ctx=ast.Load()), args=[_clone(key)], keywords=[]))
+                        ast.copy_location(add, st)
+                        if conds_:
+                            test = Use(env).visit(conds_[0]) if len(conds_) == 1 else ast.BoolOp(op=ast.Or(), values=[Use(env).visit(c) for c in conds_])
+                            out.append(ast.copy_location(ast.If(test=test, body=[add], orelse=[]), st))
+                        else:
+                            out.append(add)
+                        continue
+                ok = False
+            # compound statements: rewrite the header expressions, recurse into the blocks
+            if isinstance(st, (ast.If, ast.While)):
+                st.test = Use(env).visit(st.test)
+            elif isinstance(st, (ast.For, ast.AsyncFor)):
+                st.iter = Use(env).visit(st.iter)
+            if isinstance(st, (ast.If, ast.While, ast.For, ast.AsyncFor, ast.With, ast.AsyncWith, ast.Try)):
+                for fld in ("body", "orelse", "finalbody"):
+                    b = getattr(st, fld, None)
+                    if isinstance(b, list) and b:
+                        setattr(st, fld, block(b, env if fld == "body" and isinstance(st, (ast.For, ast.AsyncFor, ast.While, ast.With)) else dict(env)) or [ast.copy_location(ast.Pass(), st)])
+                for h in getattr(st, "handlers", []):
+                    h.body = block(h.body, dict(env)) or [ast.copy_location(ast.Pass(), st)]
+                out.append(st)
+                continue
+            out.append(Use(env).visit(st))
+        return out
+
+    work.body = block(work.body, {})
+    # every use must have been rewritten: no mention of a table, no record alias read as a whole
+    aliases = set()
+    for n in ast.walk(view.node):
+        if isinstance(n, ast.stmt):
+            a = alias_of(n)
+            if a is not None:
+                aliases.add(a[0])
+    for n in ast.walk(work):
+        if isinstance(n, ast.Name) and (n.id in tables or (n.id in aliases and isinstance(n.ctx, ast.Load))):
+            ok = False
+    if not ok:
+        return False
+    view.node.body = work.body
+    ast.fix_missing_locations(view.node)
+    set_parents(view.node)
+    return True
+
+
+def _record_fields(ci) -> dict[str, str] | None:
+    """{field: 'list' | 'flag'} for a small record class (annotated class attributes with list / False defaults)."""
+    node = getattr(ci, "node", None)
+    if node is None:
+        return None
+    out: dict[str, str] = {}
+    for st in node.body:
+        if isinstance(st, ast.AnnAssign) and isinstance(st.target, ast.Name):
+            v = st.value
+            if isinstance(v, ast.Constant) and v.value is False:
+                out[st.target.id] = "flag"
+            elif isinstance(v, ast.Call) and isinstance(v.func, ast.Name) and v.func.id == "field" and any(k.arg == "default_factory" and isinstance(k.value, ast.Name) and k.value.id == "list" for k in v.keywords):
+                out[st.target.id] = "list"
+            else:
+                return None
+        elif isinstance(st, ast.Expr) and isinstance(st.value, ast.Constant):
+            continue
+        elif isinstance(st, ast.Pass):
+            continue
+        else:
+            return None
+    return out or None
+
+
+def flatten_groups(view: FuncInfo) -> bool:
+    """A local list that only collects whole groups (`groups.append(g)`) and is only read by `for g in groups: <use every element
+    of g>` (one statement: `r.update({f(x) for x in g})` / `r.extend(... for x in g)` / `for x in g: ...`) is flattened:
+    `groups.extend(g)` and the statement ranges over `groups` itself.  The same elements reach the same sink under the same
+    conditions; True when the view was changed."""
+    if isinstance(view.node, ast.Lambda):
+        return False
+    fn = view.node
+    changed = False
+    for _round in range(3):
+        names = {n.id for n in ast.walk(fn) if isinstance(n, ast.Name) and isinstance(n.ctx, ast.Store)}
+        done = False
+        for x in sorted(names):
+            stores = [n for n in ast.walk(fn) if isinstance(n, ast.Name) and n.id == x and isinstance(n.ctx, ast.Store)]
+            if len(stores) != 1:
+                continue
+            # aliases `y = x` (hoisted results)
+            alias = [st for st in ast.walk(fn) if isinstance(st, ast.Assign) and len(st.targets) == 1 and isinstance(st.targets[0], ast.Name) and isinstance(st.value, ast.Name) and st.value.id == x]
+            readers = {x} | {st.targets[0].id for st in alias if sum(1 for n in ast.walk(fn) if isinstance(n, ast.Name) and n.id == st.targets[0].id and isinstance(n.ctx, ast.Store)) == 1}
+            loads = [n for n in ast.walk(fn) if isinstance(n, ast.Name) and n.id in readers and isinstance(n.ctx, ast.Load)]
+            appends, loops, other = [], [], []
+            for n in loads:
+                p = getattr(n, "_parent", None)
+                if isinstance(p, ast.Attribute) and p.attr == "append" and isinstance(getattr(p, "_parent", None), ast.Call) and p._parent.func is p and len(p._parent.args) == 1 and n.id == x:
+                    appends.append(p._parent)
+                elif isinstance(p, ast.For) and p.iter is n and isinstance(p.target, ast.Name) and not p.orelse:
+                    loops.append(p)
+                elif isinstance(p, ast.Assign) and p in alias and p.value is n:
+                    continue
+                else:
+                    other.append(n)
+            if not appends or not loops or other:
+                continue
+            ok = True
+            for lp in loops:
+                g = lp.target.id
+                if len(lp.body) != 1:
+                    ok = False
+                    break
+                uses = [n for n in ast.walk(lp.body[0]) if isinstance(n, ast.Name) and n.id == g]
+                if len(uses) != 1 or not isinstance(uses[0].ctx, ast.Load):
+                    ok = False
+                    break
+                up = getattr(uses[0], "_parent", None)
+                if not ((isinstance(up, ast.comprehension) and up.iter is uses[0]) or (isinstance(up, ast.For) and up.iter is uses[0])):
+                    ok = False
+                    break
+                if isinstance(up, ast.comprehension):
+                    comp = getattr(up, "_parent", None)
+                    if not (isinstance(comp, (ast.SetComp, ast.ListComp, ast.GeneratorExp)) and len(comp.generators) == 1):
+                        ok = False
+                        break
+            if not ok:
+                continue
+            for c in appends:
+                c.func.attr = "extend"
+            for lp in loops:
+                g = lp.target.id
+                src = lp.iter
+                for n in ast.walk(lp.body[0]):
+                    for fld, val in ast.iter_fields(n):
+                        if isinstance(val, ast.Name) and val.id == g and isinstance(val.ctx, ast.Load):
+                            setattr(n, fld, _clone(src))
+                # replace the loop statement by its single body statement
+                par = getattr(lp, "_parent", None)
+                for fld in ("body", "orelse", "finalbody"):
+                    blk = getattr(par, fld, None)
+                    if isinstance(blk, list) and lp in blk:
+                        blk[blk.index(lp)] = lp.body[0]
+            ast.fix_missing_locations(fn)
+            set_parents(fn)
+            changed = done = True
+            break
+        if not done:
+            break
+    return changed
